@@ -43,6 +43,7 @@ class Ctx:
         self.notes = []
         self.inputs = {}          # name -> decode descriptor (top-level parameters)
         self.axioms_added = set()
+        self.global_facts = []
         self.spec_hyps = []       # antecedents of enclosing `implies` while evaluating a contract clause
 
     def known(self, cond, timeout_ms=300):
@@ -80,6 +81,12 @@ class Ctx:
         return z3.Function(f"{base}!{n}", *sorts)
 
     # -- path condition
+    def assume_global(self, term, label):
+        """a closed, path-independent fact (imported lemma, axiom about a spec function): kept outside the
+        path condition so that it survives sub-run resets and never becomes part of a comprehension site"""
+        self.global_facts.append((term, label))
+        self.assumed.add(label)
+
     def assume(self, term, label=None):
         if isinstance(term, bool):
             term = z3.BoolVal(term)
@@ -151,7 +158,7 @@ class Ctx:
         meta = dict(meta)
         meta.setdefault("inputs", dict(self.inputs))
         meta.setdefault("function", getattr(self, "function", None))
-        self.obligs.append(Obligation(name, list(self.pc) + list(extra_hyps), goal, meta))
+        self.obligs.append(Obligation(name, list(self.global_facts) + list(self.pc) + list(extra_hyps), goal, meta))
         if z3.is_false(g) or not assume_after:
             return
         # continue under the assumption that the obligation holds
@@ -197,8 +204,8 @@ def explore(run, max_paths=4000):
             c, nopt, alts = sc.decisions[i]
             for a in alts:
                 work.append([d[0] for d in sc.decisions[:i]] + [a])
-        if res is not None:
-            out.append((ctx, res))
+        # aborted paths (cut after an invariant-preservation check, or infeasible) still carry obligations
+        out.append((ctx, res))
     return out
 
 
@@ -219,6 +226,12 @@ def explore_sub(ctx, run, max_paths=2000):
         ctx.scopes.append(sc)
         mark = ctx.mark()
         obl_mark = len(ctx.obligs)
+        # facts assumed inside a sub-run are dropped with its path condition: so must be the memo tables
+        # that record "already assumed"
+        saved = {k: (set(v) if isinstance(v, set) else dict(v)) for k, v in vars(ctx).items()
+                 if k in ("memo", "coinc_seqs", "cross_seqs", "vec_sums", "vec_bases", "join_terms")}
+        saved_ax = {a for a in ctx.axioms_added if not (isinstance(a, tuple) and a and a[0] == "ax")}
+        keep_ax = lambda: {a for a in ctx.axioms_added if isinstance(a, tuple) and a and a[0] == "ax"}
         try:
             try:
                 res = run()
@@ -229,6 +242,9 @@ def explore_sub(ctx, run, max_paths=2000):
         finally:
             ctx.scopes.pop()
             ctx.reset(mark)
+            for k, v in saved.items():
+                setattr(ctx, k, v)
+            ctx.axioms_added = saved_ax | keep_ax()
         del ctx.obligs[obl_mark:]
         for i in range(len(prefix), len(sc.decisions)):
             c, nopt, alts = sc.decisions[i]
